@@ -50,41 +50,52 @@ func kvMiddleware[V any](
 	)
 
 	// local KV
-	n.surrogateMu.RLock()
-	defer n.surrogateMu.RUnlock()
+	var forward chord.VNode
+	v, err := func() (V, error) {
+		n.surrogateMu.RLock()
+		defer n.surrogateMu.RUnlock()
 
-	// maybe we are joining or leaving
-	state := n.state.Get()
-	if state != chord.Active {
-		l.Debug("KV Handler node is not in active state", zap.String("state", state.String()))
-		n.kvStaleCount.Inc()
-		return zeroV, chord.ErrKVStaleOwnership
+		// maybe we are joining or leaving
+		state := n.state.Get()
+		if state != chord.Active {
+			l.Debug("KV Handler node is not in active state", zap.String("state", state.String()))
+			n.kvStaleCount.Inc()
+			return zeroV, chord.ErrKVStaleOwnership
+		}
+
+		if n.surrogate != nil {
+			l = l.With(zap.Object("surrogate", n.surrogate.Identity()))
+		}
+
+		n.predecessorMu.RLock()
+		defer n.predecessorMu.RUnlock()
+
+		if n.predecessor != nil {
+			l = l.With(zap.Object("predecessor", n.predecessor.Identity()))
+		}
+
+		if n.surrogate != nil && chord.Between(n.ID(), id, n.surrogate.Identity().GetId(), true) {
+			l.Warn("KV Ownership moved, forwarding to surrogate")
+			n.kvStaleCount.Inc()
+			forward = n.surrogate
+			return zeroV, nil
+		}
+
+		if n.predecessor != nil && !chord.Between(n.predecessor.ID(), id, n.ID(), true) {
+			l.Debug("Key not in range")
+			n.kvStaleCount.Inc()
+			return zeroV, chord.ErrKVStaleOwnership
+		}
+
+		return handler(ctx, n.kv, targetLocal, id)
+	}()
+	if forward != nil {
+		// forward with our locks released: while the ring settles the surrogate may route
+		// the request back to us, and a second RLock behind a waiting membership change
+		// (RequestToJoin, Leave) would deadlock - sync.RWMutex is not reentrant
+		return handler(ctx, forward, targetSurrogate, id)
 	}
-
-	if n.surrogate != nil {
-		l = l.With(zap.Object("surrogate", n.surrogate.Identity()))
-	}
-
-	n.predecessorMu.RLock()
-	defer n.predecessorMu.RUnlock()
-
-	if n.predecessor != nil {
-		l = l.With(zap.Object("predecessor", n.predecessor.Identity()))
-	}
-
-	if n.surrogate != nil && chord.Between(n.ID(), id, n.surrogate.Identity().GetId(), true) {
-		l.Warn("KV Ownership moved, forwarding to surrogate")
-		n.kvStaleCount.Inc()
-		return handler(ctx, n.surrogate, targetSurrogate, id)
-	}
-
-	if n.predecessor != nil && !chord.Between(n.predecessor.ID(), id, n.ID(), true) {
-		l.Debug("Key not in range")
-		n.kvStaleCount.Inc()
-		return zeroV, chord.ErrKVStaleOwnership
-	}
-
-	return handler(ctx, n.kv, targetLocal, id)
+	return v, err
 }
 
 func (n *LocalNode) Put(ctx context.Context, key, value []byte) error {
